@@ -6,6 +6,8 @@ import Driver.C20
 import Driver.C18
 import Driver.C11
 import Driver.C01
+import Driver.C15
+import Driver.C10
 
 def main (args : List String) : IO UInt32 := do
   let stdin ← IO.getStdin
@@ -18,4 +20,6 @@ def main (args : List String) : IO UInt32 := do
   | ["c18"] => C18Val.main stdin
   | ["c11"] => C11Val.main stdin
   | ["c01"] => C01Val.main stdin
+  | ["c15"] => C15Val.main stdin
+  | ["c10"] => C10Val.main stdin
   | _ => do IO.eprintln "usage: midriver <trval|entry|...>"; return 2
